@@ -237,7 +237,7 @@ def handleR (op : String) : Option (R String) :=
           let a : EEArgs := ⟨⟨B1 + B2, 4⟩, 4, 4, 4, ⟨4, 4⟩⟩
           let c : Case := do
             match (← eeCase B1 B2 em true a 7 0) with
-            | some toks => pure (some (toks.drop 3))
+            | some toks => pure (some ([toString N, "5"] ++ toks.drop 3))     -- method in use, default window, then the 4 extractions after the hand-over
             | none => pure none
           pure (fmt true c)
       | 9 => pure (fmt (decide (ukfValid true (lin B1) N (lin B1) N (meas B1 B2))) (do
